@@ -4,7 +4,7 @@
    A history is a list of calls (ProcessDescriptor / Close by pool index, Open); `run` yields one
    observation per call: closed ids, error, ids of Open() after the call; None = the call panicked. *)
 From Gots Require Import Base.Prelude Model.SegDesc Model.State
-  Proofs.SegProofs Proofs.StateBasics Proofs.StateRun.
+  Proofs.SegProofs Proofs.StateBasics Proofs.StateRun Proofs.StateDup.
 Import SegDesc State.
 Local Open Scope nat_scope.
 
@@ -82,3 +82,33 @@ Theorem C10_no_pts_rejected : forall s d, haspts d = false ->
   Close s d = (s, ([], Some E.SCTE35DescriptorNotFound)).
 Proof. exact no_pts_rejected. Qed.
 Print Assumptions C10_no_pts_rejected.
+
+(* ---- the same descriptor (with a PTS) processed twice in a row ---- *)
+(* Full reading of the property text: "rejected the second time as a duplicate".  That is too strong as
+   it stands: an unscheduled-event start (0x40) whose VSS signal-id lookup fails is rejected with
+   ErrVSSSignalIdNotFound (37) BEFORE it is stored, so the second attempt fails the same way.  The
+   descriptor is still rejected both times and the open list is untouched.  Proved: the duplicate
+   error whenever the first attempt did not fail with 37 (partial), the weaker rejection when it did,
+   and the refutation of the full reading (witness: 0x40/event 5 twice with different signal times
+   and no VSS MID; replayed on the real code by bin/gen/c10.py, kind vss-twice). *)
+Definition C10_dup_twice_in_row_full : Prop := dup_full.
+
+Theorem C10_dup_twice_in_row_partial : forall s d s1 closed1 err1, I1 s -> haspts d = true ->
+  ProcessDescriptor s d = Ok (s1, (closed1, err1)) -> err1 <> Some E.VSSSignalIdNotFound ->
+  exists s2, ProcessDescriptor s1 d = Ok (s2, ([], Some E.SCTE35DuplicateDescriptor)) /\
+             open s2 = open s1 /\ inBlackout s2 = inBlackout s1 /\ blackoutIdx s2 = blackoutIdx s1 /\
+             receivedHead s2 = receivedHead s1.
+Proof. exact dup_twice_in_row. Qed.
+Print Assumptions C10_dup_twice_in_row_partial.
+
+Theorem C10_dup_twice_in_row_vss : forall s d s1 closed1, I1 s -> haspts d = true ->
+  ProcessDescriptor s d = Ok (s1, (closed1, Some E.VSSSignalIdNotFound)) ->
+  exists s2 e, ProcessDescriptor s1 d = Ok (s2, ([], Some e)) /\
+             (e = E.SCTE35DuplicateDescriptor \/ e = E.VSSSignalIdNotFound) /\
+             open s2 = open s1 /\ inBlackout s2 = inBlackout s1 /\ blackoutIdx s2 = blackoutIdx s1.
+Proof. exact dup_twice_in_row_vss. Qed.
+Print Assumptions C10_dup_twice_in_row_vss.
+
+Theorem C10_dup_twice_in_row_full_refuted : ~ C10_dup_twice_in_row_full.
+Proof. exact dup_full_refuted. Qed.
+Print Assumptions C10_dup_twice_in_row_full_refuted.
